@@ -1231,6 +1231,20 @@ class Module(ABC):
             synapse_states + self.synapse_current_names,
         )
 
+    def _index_within_synapse_type(self, state_name: str, inds) -> np.ndarray:
+        """Return the index into the state array of `state_name` for every row index.
+
+        Recordings and clamps refer to synapses by their global edge index (the index of
+        `.edges`), but the states of synapses are stored in one array per synapse type.
+        For synaptic states, convert the global edge index to the index within the
+        synapse type. For states of compartments, the indices are returned unchanged."""
+        _, edge_states = self.base._get_state_names()
+        if state_name not in edge_states:
+            return inds
+        index_within_type = self.base.edges.groupby("type").rank()["global_edge_index"]
+        index_within_type = (index_within_type.astype(int) - 1).to_numpy()
+        return index_within_type[np.asarray(inds)]
+
     def get_parameters(self) -> List[Dict[str, jnp.ndarray]]:
         """Get all trainable parameters.
 
